@@ -107,9 +107,10 @@ INDUCED_WRITE = {
     "bad_version": {"version": 3}, "bad_fmt": {"fmt": "%q"}, "bad_column_fmt": {"column_fmt": {1: "%z"}},
     "bad_len_field": {"len_numeric_field": "wide"}, "bad_data_width": {"wrap": True, "data_width": 0},
     "missing_strt": {}, "unprintable_value": {}, "missing_null_with_nan": {},
+    "unencodable_text": {}, "unencodable_text_in_data": {},        # an encoding error on write: text no codec can encode (lone surrogates)
 }
 CSV_OPTS = [{}, {"units_loc": "[]"}, {"mnemonics": False, "units": False}, {"lineterminator": "\r\n"}]
-INDUCED_CSV = {"ragged_curves": {}, "bad_delimiter": {"delimiter": "ab"}, "bad_mnemonics_type": {"mnemonics": [1, 2, 3], "units_loc": "()"},
+INDUCED_CSV = {"ragged_curves": {}, "unencodable_text_in_data": {}, "bad_delimiter": {"delimiter": "ab"}, "bad_mnemonics_type": {"mnemonics": [1, 2, 3], "units_loc": "()"},
                "bad_lineterminator": {"lineterminator": 5}, "bad_quoting": {"quoting": "all"}}
 CALLEE_FUNCS = None
 OPENERS = {"open", "urlopen"}
@@ -242,6 +243,10 @@ def make_las(ctx, induced=None):
         las.params["MUD"].value = Bad()
     elif induced == "missing_null_with_nan":
         del las.well["NULL"]
+    elif induced == "unencodable_text":
+        las.well["COMP"].value = "comp\udc80any"          # as read with encoding_errors="surrogateescape"
+    elif induced == "unencodable_text_in_data":
+        las.append_curve("LITH", np.array(["a", "b\udcff", "c"] + ["d"] * (len(las.index) - 3))[:len(las.index)])
     elif induced == "ragged_curves":
         las.curves[1].data = np.arange(7.0)
     return las
